@@ -129,6 +129,10 @@ def step (line : String) : String :=
     match unhex h, i.toInt? with
     | some bs, some i => lenHelper name bs i
     | _, _ => "bad-op"
+  | ["f2b", m, e] =>
+    match m.toInt?, e.toInt? with
+    | some m, some e => hex (floatToBytes m e)
+    | _, _ => "bad-op"
   | ["ibm", h] =>
     match unhex h with
     | some bs => (match ibmBytes bs with | .ok v => showFV v | .error e => showErr e)
